@@ -15,10 +15,12 @@ import time
 from . import registry
 
 VERIF = os.path.dirname(os.path.dirname(os.path.abspath(__file__)))
-TARGETS = os.path.join(VERIF, ".targets")
-LOGS = os.path.join(VERIF, "logs")
-REPLAYS = os.path.join(VERIF, "replays")
-EVIDENCE = os.path.join(VERIF, "evidence")
+# overridable so that seeded-change runs (mut-iso.sh: private mount namespace with a scratch worktree bound over /repo)
+# do not disturb the build output, logs and evidence of the real checks
+TARGETS = os.environ.get("VERIF_TARGETS") or os.path.join(VERIF, ".targets")
+LOGS = os.environ.get("VERIF_LOGS") or os.path.join(VERIF, "logs")
+REPLAYS = os.environ.get("VERIF_REPLAYS") or os.path.join(VERIF, "replays")
+EVIDENCE = os.environ.get("VERIF_EVIDENCE") or os.path.join(VERIF, "evidence")
 KNOWN = os.path.join(VERIF, "known_findings.json")
 
 BASE_ENV = dict(os.environ)
